@@ -138,7 +138,7 @@ ESYM = {"C01", "C02", "C03", "C07", "C11", "C12", "C13", "C14", "C15", "C16"}
 
 # clauses added after the first full pass (see DESIGN.md section 3)
 EXTRA = {
-    "C01": "Also: error()/trace() are total (R8); every operand of a body is generated unconditionally; the negation and the failure form of if/then/else are compared as truth tables over (if, then, else) with the expected implication tables (R2/R4); every rule kind with a Negate method, not only the atomic ones, copies everything but the flag; the parser hands each constructor the polarity it was given (R9). The IRIs of the formula are resolved from this profile's prefixes only (R10). The fresh-name counter is never reset (R11); no variable name is also a template-local name (R12). The conversion the set constraints compare values through does not round numbers (R13; one known finding: format_int truncates). Every constraint keyword of a property adds its conjunct independently of the others (R14); every class of a node's @type is indexed (R15). The operator tables are read by evaluating the functions per constant (a switch, a keyed table, a map with a fallback alike).",
+    "C01": "Also: error()/trace() are total (R8); every operand of a body is generated unconditionally; the negation and the failure form of if/then/else are compared as truth tables over (if, then, else) with the expected implication tables (R2/R4); every rule kind with a Negate method, not only the atomic ones, copies everything but the flag; the parser hands each constructor the polarity it was given (R9). The IRIs of the formula are resolved from this profile's prefixes only (R10). The fresh-name counter is never reset (R11); no variable name is also a template-local name (R12). The conversion the set constraints compare values through does not round numbers (R13; one known finding: format_int truncates). Every constraint keyword of a property adds its conjunct independently of the others (R14); every class of a node's @type is indexed (R15). The operator tables are read by evaluating the functions per constant (a switch, a keyed table, a map with a fallback alike). Every atomic constraint built for a property carries that property's own path (R16).",
     "C02": "Also: one clause per alternative in the aggregations (P5); path rules are named by the fresh-name generator whose counter is never reset in reach of the entry points (P8); fresh expander context (P9). Every traversal result is kept wherever results are collected (P5); the index holds every node because the input is flattened unconditionally (P10). The subject searches exclude no candidate by a second test (P6); a forward and an inverse step yield nodes in the same form (P11; one known finding). A compact IRI expands to its namespace followed by its local name and nothing else (P12); the grammar actions for / and | keep every operand (P13). The helper that merges the default prefixes copies entries, it never adopts the map (P9). No parse result is kept across calls (P14). Nodes the data only refers to are entered in the node index, so a path that passes through one keeps it (P15).",
     "C03": "Also: no report, header field or time survives a call in a package-level variable (L7). The public entry points hand the caller's configurations on unchanged (L8). Every rule of every level reaches the generator (L9); YAML aliases are rejected (L10). The profile name in the header is Profile.Name quoted by the escaping helper and by nothing else (L5).",
     "C04": "Also: the JSON decoder reads the entry point's data text unchanged (E5), the decode dominates the normalisation (E6), explicit panics on the data path never carry nil (E7). An error that is never compared with nil must be returned on every later return (E1); the CLI hands the library the data file as read (E8). No validation outcome survives a call (E9); a failed read ends the CLI with a non-zero status (E10).",
@@ -154,7 +154,7 @@ EXTRA = {
     "C15": "Also: the YAML decoder is handed the entry point's profile text unchanged (O5); operand lists are only permuted, never filtered (O6); prefix names are not validated more strictly than the grammar (O7). The placeholder pattern finds every prefix name the grammar admits (O7); no loop of the profile parser that fills a list stops early (O8); scalar test before a node's text is read (O9). YAML aliases are rejected (O10). Constructors store the operand list they are given and no operand is conditional, on values (O6); no in-place extension of shared operand lists (O11). Every prefix and name the grammar admits is accepted by the IRI expander (O12). A boolean flag accumulated over the operands is never overwritten with what the current operand says (O13).",
     "C16": "Also: the generated parser is handed the caller's string unchanged (X7); the tree builder keeps every operand (X8); no parse result is cached across calls (X9). The generated interpreter gives back consumed input when a sequence, literal or predicate fails (X10). RuneError is only tested together with the decoder's width (X11); no expression budget by default (X12). The runtime has no other limit: no explicit panic under an ordering comparison of a depth, length or count (X13). The runtime folds the case of the input only for expressions marked ignoreCase (X14).",
     "C17": "Also: explicit panics never carry nil (Z7); a deferred close of the event channel is the only close (Z8); locks are released by defer. Negate of and/or returns a non-negated rule, so the two generators cannot recurse into each other for ever (Z9). No compilation writes into the shared default prefix table (Z10). No recursion whose calls hand on only unchanged parameters and looked-up texts (Z11).",
-    "C18": "Also: every text handed to the library is a file's content as read (W5); a path that writes to stderr ends with a non-zero exit (W7). Nothing in reach of the library writes to standard output or error (W8); accepted argument counts are exactly the counts with an output branch (W9). What the library returns does not depend on profiles compiled earlier (W10); no map iteration order reaches what the commands print (W11). The public entry points hand the caller's texts to the validator unchanged (W12).",
+    "C18": "Also: every text handed to the library is a file's content as read (W5); a path that writes to stderr ends with a non-zero exit (W7). Nothing in reach of the library writes to standard output or error (W8); accepted argument counts are exactly the counts with an output branch (W9). What the library returns does not depend on profiles compiled earlier (W10); no map iteration order reaches what the commands print (W11). The public entry points hand the caller's texts to the validator unchanged (W12). Every command function is reached by the dispatch in main (W13).",
 }
 
 
